@@ -162,7 +162,7 @@ theorem Ty.blocks_ok : ∀ (t : Ty), t.wf = true → ∀ v pos, BlocksOK (t.bloc
       simp only [Ty.wf, Bool.and_eq_true] at hw
       by_cases hz : m.zero = true
       · simp only [hz, if_true, Bool.and_eq_true, Bool.not_eq_true'] at hw
-        have hzc : (Ty.adt m vs).isZC = true := by simp [Ty.isZC, hz, hw.1.2.2]
+        have hzc : (Ty.adt m vs).isZC = true := by simp [Ty.isZC, hz, hw.1.2.1]
         have hal := pad_aligned (pos := pos) (Ty.units (.adt m vs) hzc hw').2.1
         cases v with
         | record fs => rw [Ty.blocks_adt_zero m vs fs pos hz]; exact BlocksOK_single hal
